@@ -8,6 +8,8 @@ Every case is a small JSON dict (bytes as hex) that `check_case` executes agains
   method-reject  unknown or missing methods must raise (encrypt and decrypt)
   stored-reject  malformed stored secrets given to SecureField.to_python must raise instead of returning a value
   stored-rt      SecureField.to_basic -> to_python through a new configuration object and key-file session
+  provider-reuse ONE AesProvider / XorProvider object (and one KeyFile session) used for several encryptions in a
+                 row, also of equal plaintexts: fresh IV per call, every ciphertext decrypts
 The reference AES pipeline is built directly on the `cryptography` package and shares no code with the library.
 """
 import base64
@@ -204,16 +206,79 @@ def check_case(tmp, case):
                 bad(O_KF_STR, "%s|%s" % (method, cls), "str plaintext not encrypted as its UTF-8 bytes: %s"
                     % _sh(d, e2))
     elif kind == "aes-reject":
+        # must_raise=False marks a modified ciphertext that happens to be IV + whole blocks with VALID PKCS7
+        # padding (decided by the reference pipeline): no standard implementation can reject it, the clause left
+        # is that it never decrypts to the original plaintext
         ct = bytes.fromhex(case["ct"])
-        v, e = _call(E.AesProvider(key).decrypt, ct)
-        if e is None:
-            bad(O_AES_REJ, case["class"], "AesProvider.decrypt(%d bytes, %s) returned %r instead of raising"
-                % (len(ct), case["class"], v))
+        orig = bytes.fromhex(case["orig"]) if "orig" in case else None
+        must = case.get("must_raise", True)
         path = _keyfile(tmp, key)
         with E.KeyFile(path) as ctx:
-            v, e = _call(ctx.decrypt, E.SecureValue("aes", ct))
-        if e is None:
-            bad(O_AES_REJ, "keyfile|" + case["class"], "KeyFile.decrypt(aes, %d bytes) returned %r" % (len(ct), v))
+            results = [("", _call(E.AesProvider(key).decrypt, ct)),
+                       ("keyfile|", _call(ctx.decrypt, E.SecureValue("aes", ct)))]
+        for pre, (v, e) in results:
+            if e is not None:
+                continue
+            if orig is not None and v == orig:
+                bad(O_AES_REJ, pre + case["class"] + "|original-plaintext", "decrypt of a %s ciphertext (%d bytes) "
+                    "returned the ORIGINAL plaintext" % (case["class"], len(ct)))
+            elif must:
+                bad(O_AES_REJ, pre + case["class"], "decrypt(%d bytes, %s) returned %r instead of raising"
+                    % (len(ct), case["class"], v))
+    elif kind == "provider-reuse":
+        # ONE provider object used for several encryptions in a row (also of equal plaintexts)
+        plains = [bytes.fromhex(h) for h in case["plains"]]
+        cls = case["class"]
+        aes = E.AesProvider(key)
+        cts = []
+        for x in plains:
+            c, e = _call(aes.encrypt, x)
+            if e is not None:
+                bad(O_AES_FMT, "same-provider|" + cls, "encrypt #%d on the same AesProvider raised %s"
+                    % (len(cts), type(e).__name__))
+                break
+            cts.append(c)
+        else:
+            ivs = [c[:16] for c in cts]
+            if len(set(ivs)) != len(ivs):
+                bad(O_AES_IV, "same-provider|" + cls, "%d encryptions on one AesProvider used only %d different IVs"
+                    % (len(ivs), len(set(ivs))))
+            if len(set(cts)) != len(cts):
+                bad(O_AES_IV, "same-provider|%s|ciphertext" % cls, "encryptions on one AesProvider gave equal "
+                    "ciphertexts")
+            for i, (x, c) in enumerate(zip(plains, cts)):
+                r, e = _call(ref_aes_dec, key, c)
+                if e is not None or r != x or len(c) != 16 + 16 * (len(x) // 16 + 1):
+                    bad(O_AES_FMT, "same-provider|" + cls, "ciphertext #%d is not IV + AES-256-CBC/PKCS7 of its "
+                        "plaintext (independent decrypt -> %s)" % (i, _sh(r, e)))
+                for who, prov in (("same", aes), ("fresh", E.AesProvider(key))):
+                    d, e = _call(prov.decrypt, c)
+                    if e is not None or d != x:
+                        bad(O_AES_INV, "same-provider|%s|%s-object" % (cls, who), "decrypt of ciphertext #%d on the "
+                            "%s provider object -> %s" % (i, who, _sh(d, e)))
+        xp = E.XorProvider(key)
+        for i, x in enumerate(plains):
+            c, e = _call(xp.encrypt, x)
+            if e is not None or c != _xor(x, key):
+                bad(O_XOR, "same-provider|" + cls, "encrypt #%d on one XorProvider != key repeated over data (%s)"
+                    % (i, _sh(c, e)))
+                continue
+            d, e = _call(xp.decrypt, c)
+            if e is not None or d != x:
+                bad(O_XOR_INV, "same-provider|" + cls, "decrypt #%d on the same XorProvider -> %s" % (i, _sh(d, e)))
+        # one KeyFile session, several encryptions
+        path = _keyfile(tmp, key)
+        with E.KeyFile(path) as ctx:
+            svs = [_call(ctx.encrypt, x, method="aes") for x in plains]
+            back = [(_call(ctx.decrypt, sv) if e is None else (None, e)) for sv, e in svs]
+        if any(e is not None for _, e in svs):
+            bad(O_KF_INV, "same-session|" + cls, "encrypt in one KeyFile session raised")
+        else:
+            if len({sv.ciphertext[:16] for sv, _ in svs}) != len(svs):
+                bad(O_AES_IV, "same-session|" + cls, "encryptions in one KeyFile session share an IV")
+            for i, ((d, e), x) in enumerate(zip(back, plains)):
+                if e is not None or d != x:
+                    bad(O_KF_INV, "same-session|" + cls, "decrypt #%d in the same session -> %s" % (i, _sh(d, e)))
     elif kind == "method-reject":
         m = _dec(case["method"])
         path = _keyfile(tmp, key)
@@ -234,7 +299,10 @@ def check_case(tmp, case):
         schema.s = SecureField(method=case.get("field_method", "best"))
         cfg = schema(key_filename=path)
         v, e = _call(schema.s.to_python, cfg, value)
-        if e is None:
+        if e is None and "orig_text" in case and v == case["orig_text"]:
+            bad(O_STORED_REJ, case["class"] + "|original-plaintext", "to_python of a %s ciphertext returned the "
+                "ORIGINAL plaintext" % case["class"])
+        elif e is None:
             bad(O_STORED_REJ, case["class"], "to_python(%s) returned %r instead of raising" % (_short(value), v))
         else:
             # the same through the public loading path: must raise as well, and leave no value behind
@@ -411,6 +479,53 @@ def gen_cases(rng, tier):
                        "class": cls}, (kname if kname != "rand" else key.hex()[:8], cls, method)
 
 
+def _modified(rng, key, good, orig):
+    """(class, ciphertext, must_raise): a valid AES value extended by 1..15 and by 16 bytes, truncated by 1..16"""
+    rb = lambda n: bytes(rng.getrandbits(8) for _ in range(n))  # noqa: E731
+    out = []
+    for n in range(1, 16):
+        out.append(("extended-by-1..15", good + rb(n)))
+        out.append(("truncated-by-1..15", good[:-n]))
+    out.append(("truncated-by-16", good[:-16]))
+    for extra in (bytes(16), good[-16:], rb(16), rb(16)):
+        out.append(("extended-by-16", good + extra))
+    res = []
+    for cls, ct in out:
+        try:
+            ref = ref_aes_dec(key, ct)          # does the standard itself reject this byte string?
+        except ValueError:
+            ref = None
+        res.append((cls, ct, ref is None))
+    return res
+
+
+def gen_more(rng, tier):
+    """extension of the scope: provider reuse; systematic extension / truncation of valid AES values"""
+    rb = lambda n: bytes(rng.getrandbits(8) for _ in range(n))  # noqa: E731
+    keys = _key_pool(rng, 7 if tier == "quick" else 20)
+    x16, y = b"sixteen bytes..!", b"another plaintext, 31 bytes...."
+    seqs = [("equal-x3", [b"same secret"] * 3), ("equal-block-x4", [x16] * 4), ("empty-x3", [b""] * 3),
+            ("interleaved", [x16, y, x16, y, x16]), ("mixed-lengths", [b"", b"a", x16, y, x16 * 4, b"a", b""]),
+            ("equal-non-utf8-x3", [b"\xff\x00\x80" * 11] * 3), ("equal-x8", [b"hunter2"] * 8)]
+    for kname, key in keys:
+        for cls, plains in seqs:
+            yield {"kind": "provider-reuse", "key": key.hex(), "plains": [x.hex() for x in plains], "class": cls}, \
+                (key.hex()[:8], cls)
+    origs = [b"", b"short", b"sixteen bytes..!", b"thirty-three printable ascii byte",
+             b"forty-seven printable ascii bytes, 3 blocks ..."]
+    for ki, (kname, key) in enumerate(keys[-8:] if tier == "quick" else keys):
+        for orig in origs:
+            good = ref_aes_enc(key, rb(16), orig)
+            for j, (cls, ct, must) in enumerate(_modified(rng, key, good, orig)):
+                yield {"kind": "aes-reject", "key": key.hex(), "ct": ct.hex(), "orig": orig.hex(), "class": cls,
+                       "must_raise": must}, (key.hex()[:8], len(orig), cls, j)
+                if ki < 3 and must:
+                    text = orig.decode()
+                    yield {"kind": "stored-reject", "key": key.hex(), "class": "aes-" + cls, "orig_text": text,
+                           "value": _enc({"method": "aes", "ciphertext": base64.b64encode(ct).decode()})}, \
+                        (key.hex()[:8], len(orig), "aes-" + cls, j)
+
+
 def rac(tier: str, seed: int) -> dict:
     rec = Recorder(PID, rule="one case per (key, plaintext, method) round trip [providers + KeyFile sessions + "
                    "independent cryptography pipeline both ways], per malformed AES ciphertext, per bad method, per "
@@ -419,11 +534,16 @@ def rac(tier: str, seed: int) -> dict:
                    bound="keys: zeros, 0xff, ramp, ascii, NUL-first + %s seeded random; plaintexts: empty, 1, 15, 16, "
                    "17, 31, 32, 33, 48, 65, 100 bytes, non-UTF-8, padding look-alikes + seeded random lengths < 200; "
                    "methods aes/xor/best; AES ciphertext lengths 0..31, unaligned, truncated, extended; 11 bad "
-                   "methods; 47 malformed stored values x 3 keys; 7 texts x 3 methods through SecureField"
+                   "methods; 47 malformed stored values x 3 keys; 7 texts x 3 methods through SecureField; 7 plaintext "
+                   "sequences (equal / interleaved / empty / mixed) on ONE AesProvider / XorProvider / KeyFile session "
+                   "x 12 keys; valid AES values of 0/5/16/33/47-byte plaintexts extended by 1..15 and 16 bytes and "
+                   "truncated by 1..16 bytes x 8 keys (rejection required whenever the reference pipeline rejects; "
+                   "never the original plaintext), the same through SecureField.to_python x 3 keys"
                    % ("27" if tier == "quick" else "40"), tier=tier, seed=seed)
     with sandbox() as tmp:
         n = 0
-        for case, key in gen_cases(rec.rng, tier):
+        import itertools
+        for case, key in itertools.chain(gen_cases(rec.rng, tier), gen_more(rec.rng, tier)):
             n += 1
             fs = check_case(tmp, case)
             rec.case(key=(case["kind"],) + tuple(key), nontrivial=True,
